@@ -231,11 +231,43 @@ def lake_build(targets, timeout=3600):
             p = sh(["lake", "build", *targets], cwd=LEAN, timeout=timeout)
             out = p.stdout + p.stderr
         log("[lake] build %s: %s in %.1fs" % (" ".join(targets), "ok" if p.returncode == 0 else "FAILED", time.time() - t0))
+        if p.returncode == 0 and "vdriver" in targets:
+            _snapshot_driver()
         return p.returncode == 0, out
 
 
+_DRIVER_SNAP = [None]
+
+
+def _snapshot_driver():
+    """Called with the lake lock held: copy the linked driver to a content-named file, so that a concurrent `lake build`
+    (which unlinks and relinks .lake/build/bin/vdriver) cannot pull the binary away from under a running check."""
+    src = LEAN / ".lake" / "build" / "bin" / "vdriver"
+    if not src.exists():
+        return None
+    st = src.stat()
+    d = BUILD / "driver"
+    d.mkdir(parents=True, exist_ok=True)
+    dst = d / ("vdriver-%d-%d" % (st.st_size, st.st_mtime_ns))
+    if not dst.exists():
+        tmp = d / (dst.name + ".tmp%d" % os.getpid())
+        shutil.copy2(src, tmp)
+        os.replace(tmp, dst)
+        for old in sorted(d.glob("vdriver-*"), key=lambda f: f.stat().st_mtime)[:-6]:
+            try:
+                old.unlink()
+            except OSError:
+                pass
+    _DRIVER_SNAP[0] = dst
+    return dst
+
+
 def driver_path():
-    return LEAN / ".lake" / "build" / "bin" / "vdriver"
+    if _DRIVER_SNAP[0] is not None and _DRIVER_SNAP[0].exists():
+        return _DRIVER_SNAP[0]
+    with Lock("lake"):
+        snap = _snapshot_driver()
+    return snap if snap is not None else LEAN / ".lake" / "build" / "bin" / "vdriver"
 
 
 _ERR_RE = re.compile(r"error: (\S+\.lean):(\d+):(\d+): (.*)")
